@@ -246,6 +246,10 @@ func echoBytes(cs []*bbCarrier) int {
 	return n
 }
 
+// waitLimit bounds the wait for an expected effect (bytes delivered, connection accepted, carrier closed). It is
+// only reached when the effect never comes; on a heavily loaded machine KCP needs well over 10 s for 20 KB.
+const waitLimit = 60 * time.Second
+
 func runScenario(ops string) string {
 	var carriers []*bbCarrier
 	var sc *bbScen
@@ -310,7 +314,7 @@ func runScenario(ops string) string {
 		}
 	}
 	waitFor := func(exps []string) {
-		deadline := time.Now().Add(10 * time.Second)
+		deadline := time.Now().Add(waitLimit)
 		for time.Now().Before(deadline) {
 			ok := true
 			for _, e := range exps {
@@ -395,7 +399,7 @@ func runScenario(ops string) string {
 		case op[0] == 'w':
 			f := strings.Split(op[1:], ":")
 			j, _ := strconv.Atoi(f[0])
-			deadline := time.Now().Add(10 * time.Second)
+			deadline := time.Now().Add(waitLimit)
 			var bc *bbConn
 			for bc == nil && time.Now().Before(deadline) {
 				sc.mu.Lock()
